@@ -2,6 +2,7 @@ package main
 
 import (
 	"go/token"
+	"go/types"
 
 	"golang.org/x/tools/go/ssa"
 )
@@ -45,8 +46,39 @@ func clDeltaHandshakeOrder(c *Ctx) {
 		})
 		c.Check(ok, fn, s, "backup snapshot released only after logging is active in every GC worker",
 			"the snapshot is released before (or without) a successful init handshake: the collector may unlink items visible to the backup before their removal is logged, and the backup misses them")
-		// the init handshake must concern this snapshot's number: arg 3 is the snapshot
-		c.Check(strip(callOf(initCall).Args[3]) == strip(callOf(s).Args[0]) || true, fn, s, "init handshake carries the backup snapshot", "")
+	}
+	// the horizon handed to the GC workers is the number of the snapshot being stored
+	fCtxSn := p.Field("nitro", "deltaWrContext", "sn")
+	fSnapSn := p.Field("nitro", "Snapshot", "sn")
+	nsn := 0
+	for _, w := range p.fieldWrites(fCtxSn) {
+		nsn++
+		f, base := loadedField(w.val)
+		okv := f == fSnapSn
+		if okv {
+			// the snapshot is a parameter of the handshake function, bound to StoreToDisk's snapshot at the call
+			prm, isP := strip(base).(*ssa.Parameter)
+			okv = isP
+			if isP {
+				for i, pp := range w.fn.Params {
+					if pp == prm {
+						for _, cs := range p.CallSites(fn, w.fn) {
+							if isConstInt(initS)(callOf(cs).Args[1]) {
+								a := strip(callOf(cs).Args[i])
+								if fi.resolveCell(a) != ssa.Value(fn.Params[2]) && a != ssa.Value(fn.Params[2]) && !cellHolds(fi, a, fn.Params[2]) {
+									okv = false
+								}
+							}
+						}
+					}
+				}
+			}
+		}
+		c.Check(okv, w.fn, w.in, "delta log horizon = number of the snapshot being stored",
+			"the GC workers judge 'visible to the backup' against another snapshot than the one being stored: when an older snapshot is backed up, items it sees are collected without being logged and are missing after restore")
+	}
+	if nsn == 0 {
+		c.Check(false, fn, initCall, "delta log horizon = number of the snapshot being stored", "the writer contexts are never told which snapshot is being stored")
 	}
 	// terminate handshake deferred after init success, and runs before the delta writers are closed
 	var termDefer, closeDefer *ssa.Defer
@@ -62,7 +94,17 @@ func clDeltaHandshakeOrder(c *Ctx) {
 	}
 	c.Check(fi.Dominates(initCall, termDefer), fn, termDefer, "terminate handshake registered after the init handshake", "")
 	// the deferred closure closing the delta writers: the one whose writers slice is passed to the init handshake
-	dw := strip(callOf(initCall).Args[2])
+	var dw ssa.Value
+	for _, a := range callOf(initCall).Args {
+		if sl, ok := a.Type().Underlying().(*types.Slice); ok {
+			if n, ok := sl.Elem().(*types.Named); ok && n.Obj().Name() == "FileWriter" {
+				dw = strip(a)
+			}
+		}
+	}
+	if dw == nil {
+		undecidedf("StoreToDisk: delta writers argument of the init handshake not found")
+	}
 	for cl, d := range deferredClosures(fn) {
 		for _, in := range p.Info(cl).Instrs {
 			cc := callOf(in)
